@@ -27,6 +27,7 @@ impl FieldValue {
     #[verifier::external_body]
     pub fn from_field_type<'a>(remaining: &'a [u8], field_type: FieldDataType, field_length: u16) -> (r: IResult<&'a [u8], FieldValue>)
         ensures nom_view(r) == fv_from(remaining@, field_type, field_length),
+            r is Ok ==> r->Ok_0.0@.len() <= remaining@.len(),      // the rest is a suffix of the input (K.fv.from.*)
     { unimplemented!() }
 }
 
@@ -57,6 +58,7 @@ impl TemplateField {
 //@                if body.len() < l { r is Err } else {
 //@                    r matches Ok((rest, FieldValue::Vec(v))) && v@ == body.subrange(0, l as int) && rest@ == body.subrange(l as int, body.len() as int) }
 //@            } else { nom_view(r) == fv_from(body, datatype_of(self.field_type), l) } })
+//@   ensures: r is Ok ==> r->Ok_0.0@.len() <= i@.len()
 //@   before "let (i, length) = self.parse_field_length(i)?;": broadcast use lemma_cloned_u8;
 //@ end
 }
